@@ -37,3 +37,9 @@ def fill(chk):
         "One fault per execution (bound 1); SSLv3 CBC changes confined to the unauthenticated padding block are accepted by protocol design and only required to deliver the sender's plaintext; quick uses masks {0x01,0x80}, thorough all eight bits and all truncation lengths.",
         "exhaustive single-fault enumeration over record sequences on deep-copied live connections, forgeries sealed by an independent record layer",
         "DESIGN.md 3/C02")
+
+    chk("C03", "exploration",
+        "Every pair (client settings, server settings) with <=1 changed dimension per side from 34 in-domain menu values, crossed with 15 handshake flavours (RSA, RSA-PSS, ECDSA P-256/384/521, Ed25519, Ed448, DSA, SRP, SRP+cert, anonymous, PSK with and without certificate, client auth, ALPN, SNI, NPN) is run as a live loopback handshake (full cross on the mutual-auth flavour in quick, everywhere in thorough). On completion the two endpoint views (version, suite, secrets, exporter output, EMS/EtM, ALPN/NPN, server name, both chains) must be equal and every negotiated parameter must lie inside each side's own validated settings as read through the independent IANA-name parser; when one side fails the other must not obtain application data and some alert must have been exchanged.",
+        "Finite menus; serverSigAlg/ecdhCurve/dhGroupSize only checked where the library sets them; fixture key sizes are constants.",
+        "exhaustive product enumeration of settings pairs x flavours with live handshakes and an independent policy-membership oracle",
+        "DESIGN.md 3/C03")
